@@ -337,12 +337,15 @@ def random_histories(ns, out, tid0, seeds, n_ops):
             ("usage_pattern.usage_journey = journey of other system",
              lambda: setattr(live[ups[0]], "usage_journey", live["uj_B"])),
             ("job.server = server of other system",
-             lambda: setattr(live[sorted(n for n in live if type(live[n]).__name__ == "Job" and not n.endswith("_B"))[0]],
-                             "server", live["sv_B"])),
+             lambda: setattr(live[sorted(n for n in live if type(live[n]).__name__ == "Job" and not n.endswith("_B")
+                                         and live[n].systems)[0]], "server", live["sv_B"])),
             ("System(new, [usage pattern of an existing system])",
              lambda: ns.classes["System"]("third", usage_patterns=[live[ups[0]]])),
         ]
         what, fn = attempts[seed % len(attempts)]
+        if "job.server" in what and not any(type(o).__name__ == "Job" and not n.endswith("_B") and o.systems
+                                            for n, o in live.items()):
+            what, fn = attempts[0]          # no job of the first system to re-point
         h.cross_link(what, fn)
         events += h.events
         out.nontrivial |= {("history", seed, k) for k in range(len(h.events))}
